@@ -254,11 +254,43 @@ pub fn fixture(prop: &'static str, seed: u64, f: u64, kind: PlannerKind, alpha_s
         scn.planner.seed = None;
     }
     scn.clock = ClockSpec { tick_ns: 1000, cost_valid: vec![], cost_sample: vec![], cost_goal: vec![] };
+    let obstructed = (f / 6) % 2 == 0;
+    // The obstructed R^n fixture is DYADIC: every coordinate is a multiple of 1/16 in [-8, 8]^2
+    // and the step is longer than the box, so nothing is ever steered and every tree node is an
+    // alphabet state; `from + (to - from) * 1.0` is then exact, the state a motion check looks at
+    // last is bit-identical to the state that gets stored, and the invalid alphabet state can be
+    // a POINT obstacle (no padding ball): a motion check that stops one ulp short of its end
+    // point is visible here and nowhere else (8.3).
+    let dyadic = obstructed && FIXTURE_SPACES[(f % 6) as usize] == "RV";
+    if dyadic {
+        scn.space = SpaceSpec::RV { dim: 2, bounds: Some(vec![(-8.0, 8.0), (-8.0, 8.0)]), frac: 0.05 };
+        let snap = |rng: &mut Xo| -> St { (0..2).map(|_| (rng.below(257) as f64 - 128.0) / 16.0).collect() };
+        scn.problems[0].starts[0] = snap(&mut rng);
+        scn.problems[0].goal.target = snap(&mut rng);
+        scn.problems[0].space = None;
+        scn.worlds[0].obstacles.clear();
+        scn.planner.max_distance = 64.0;
+        scn.planner.search_radius = 64.0;
+        scn.params.insert("ext".into(), 22.7);
+        scn.params.insert("dyadic".into(), 1.0);
+    }
     let mut geo = geo_for(&scn.space).unwrap();
     let anchors = vec![scn.problems[0].starts[0].clone(), scn.problems[0].goal.target.clone()];
-    let alpha = alphabet(&*geo, &mut rng, &anchors, alpha_size);
-    let obstructed = (f / 6) % 2 == 0;
-    if obstructed {
+    let mut alpha = alphabet(&*geo, &mut rng, &anchors, alpha_size);
+    if dyadic {
+        for a in alpha.iter_mut().skip(2) {
+            for x in a.iter_mut() {
+                *x = ((*x * 16.0).round() / 16.0).clamp(-8.0, 8.0);
+            }
+        }
+    }
+    if obstructed && dyadic {
+        scn.worlds[0].obstacles.push(Obstacle::Ball { c: alpha[alpha.len() - 1].clone(), r: 1e-300 });
+        geo.set_worlds(&scn.worlds);
+        if !geo.valid(0, &anchors[0]) || !geo.valid(0, &anchors[1]) {
+            scn.worlds[0].obstacles.clear();
+        }
+    } else if obstructed {
         // an alphabet world: the last alphabet state is invalid, padded with a small ball, plus
         // one ordinary obstacle
         scn.worlds[0].obstacles.push(Obstacle::Ball { c: alpha[alpha.len() - 1].clone(), r: 1e-3 * ext });
@@ -425,6 +457,12 @@ impl Check for TreeProp {
         let (fixtures, per, _, _) = self.enum_layout(tier);
         if index < fixtures * per {
             return self.enumerated(seed, index, tier);
+        }
+        if self.id == "C15" && index % 4001 == 17 {
+            let mut scn = crate::checks::ultra_fine(self.id, seed, index);
+            scn.params.insert("depth".into(), 2.0);
+            scn.params.insert("obstacle_free".into(), 1.0);
+            return scn;
         }
         let mut rng = Xo::new(mix(seed, self.id, index));
         let kinds: Vec<PlannerKind> = match self.id {
